@@ -13,8 +13,9 @@
 //	pack     util/pack Encoder/Decoder fixed and variable ints, varint.Len
 //
 // Oracle: what is read must be exactly what was written, and the reader must
-// have consumed exactly the bytes written; byte formats are compared with
-// encoding/binary where the code documents the format.
+// have consumed exactly the bytes written. Byte formats are compared with
+// encoding/binary / little endian only to REPORT differences (counters
+// format_differs_*), the property asks for the round trip.
 package main
 
 import (
@@ -200,7 +201,7 @@ func main() {
 			"stor Writer/Reader and mux WriteBuf/ReadBuf: every boundary integer ([-70000,70000], +-2 around +-2^k, limits; thorough: [-1000000,1000000]) per width, all op sequences of length <=3 over an op alphabet, strings around the 4 kb buffer / 64 k / varint size boundaries through the real connection framing; " +
 			"a case is one written item (or sequence) read back; all cases are distinct by construction",
 		Assumptions: []string{
-			"oracle = identity (what is read back equals what was written, reader consumed exactly the written bytes); documented formats additionally compared with encoding/binary (little endian, zig-zag varint, uvarint)",
+			"oracle = identity (what is read back equals what was written, reader consumed exactly the written bytes); differences from the documented byte formats (little endian, zig-zag varint, uvarint) are only counted, not failures",
 			"values outside an encoding's range must be rejected (panic), never silently changed",
 			"mux messages kept below the 1 mb maxio/maxSize limits (limit() is fatal in a client process)",
 			"verdict is for the enumerated sizes and integers only",
